@@ -32,9 +32,22 @@
    from it); every string is built afresh at run time for every call, so equal
    keys never share a backing array.  Keys and values coming back are parsed
    back to integers.  Because the codec preserves the order, this side is just
-   the model at Z with Z.ltb / Z.gtb. *)
+   the model at Z with Z.ltb / Z.gtb.
 
-From Gogu Require Import Base C04_Model.
+   Comparators with TIES (cmp = 8..13) and NON-STRICT comparators (14, 15):
+     8 / 9    BsTree[int, int] under  a/2 < b/2  /  a/2 > b/2   (Go's truncating division: Z.quot)
+     10 / 11  BsTree[int, int] under  a%3 < b%3  /  a%3 > b%3   (Go's remainder: Z.rem; the classes interleave)
+     12 / 13  BsTree[string, string] under strings.ToLower(a) < / > strings.ToLower(b): a wire key k >= 0
+              stands for a 4-letter word, the letters spell k/4 in base 26 and k%4 selects which of the
+              first two letters are upper case, so k and k' tie iff k/4 = k'/4; on this side it is the
+              model at Z under a/4 < b/4 (the harness refuses negative keys in these modes)
+     14 / 15  BsTree[int, int] under  a <= b  /  a >= b
+   In the modes 8..13 "the same key" of the specification machine is the comparator's equivalence
+   [ceq] (keys that tie), not Z.eqb; in the modes 14 / 15 the property says nothing (it is about strict
+   comparators) and [c04_spec] is the bag machine [run_bag] of C04_ModelTies.v, which writes down what
+   the code does there (C04_nonstrict_* in C04_PropsTies.v). *)
+
+From Gogu Require Import Base C04_Model C04_ModelTies.
 
 Definition ext_key (k : Z) : Z :=
   if (0 <=? k) && (k <? 5000) then
@@ -53,8 +66,26 @@ Definition cmp_of (c : Z) : Z -> Z -> bool :=
   | 2 => fun a b => Z.ltb (ext_key a) (ext_key b)
   | 3 => fun a b => Z.gtb (ext_key a) (ext_key b)
   | 4 | 6 => Z.ltb
+  | 8 => fun a b => Z.ltb (Z.quot a 2) (Z.quot b 2)
+  | 9 => fun a b => Z.gtb (Z.quot a 2) (Z.quot b 2)
+  | 10 => fun a b => Z.ltb (Z.rem a 3) (Z.rem b 3)
+  | 11 => fun a b => Z.gtb (Z.rem a 3) (Z.rem b 3)
+  | 12 => fun a b => Z.ltb (Z.quot a 4) (Z.quot b 4)
+  | 13 => fun a b => Z.gtb (Z.quot a 4) (Z.quot b 4)
+  | 14 => Z.leb
+  | 15 => Z.geb
   | _ => Z.gtb
   end.
+
+(* "the same key" for the specification machine: Go's == on the keys where the comparator is a strict
+   total order (there the two coincide), the comparator's equivalence where keys tie *)
+Definition keq_of (c : Z) : Z -> Z -> bool :=
+  match c with
+  | 8 | 9 | 10 | 11 | 12 | 13 => ceq (cmp_of c)
+  | _ => Z.eqb
+  end.
+
+Definition nonstrict (c : Z) : bool := (c =? 14) || (c =? 15).
 
 Definition zop := @op Z Z.
 Definition zout := @out Z Z.
@@ -112,7 +143,8 @@ Definition c04_spec (w : list Z) : list Z :=
   | c :: rest =>
       match dec_ops (chunks 3 rest) with
       | Some ops =>
-          let '(m, xs) := run_map (cmp_of c) Z.eqb ops [] in
+          let '(m, xs) := if nonstrict c then run_bag (cmp_of c) ops []
+                          else run_map (cmp_of c) (keq_of c) ops [] in
           flat_map enc_out xs ++ [Z.of_nat (length m)] ++ enc_pairs m
       | None => wire_error
       end
